@@ -433,6 +433,17 @@ def gen_exchange_plan(seed, tier, prop):
                 docs.append({"producer": pi, "item": ii, "normalized": normalized, "hops": hops,
                              "j3_hashseed": rng.randint(0, 2 ** 32 - 1), "j3_transcode": gen_hop_faults(rng, fault_free).get("transcode")})
     docs = docs[:6]
+    shared = False
+    if rng.chance(0.35):
+        # long-lived consumers: every hop of every document of this run goes to one of 1-2 consumer processes
+        # (one hash seed per version), so a consumer handles several different documents one after another
+        shared = True
+        vers = rng.sample(consumers, rng.choice([1, 1, 2]))
+        hs = {v: rng.randint(0, 2 ** 32 - 1) for v in vers}
+        for d in docs:
+            for hop in d["hops"]:
+                hop["ver"] = rng.choice(vers)
+                hop["hashseed"] = hs[hop["ver"]]
     if any(len(it["prog"].get("src") or "") > 100000 for p in producers for it in p["items"]):
         # a 2^16-entry program: every hop (and every schema validation) of its multi-megabyte document costs
         # tens of seconds; such a run gets one document and at most two hops
@@ -440,7 +451,7 @@ def gen_exchange_plan(seed, tier, prop):
         for d in big:
             d["hops"] = d["hops"][:2]
         docs = big + [d for d in docs if d not in big and len(producers[d["producer"]]["items"][d["item"]]["prog"].get("src") or "") <= 100000]
-    return {"kind": "exchange", "producers": producers, "docs": docs, "order_seed": rng.randint(0, 2 ** 32), "fault_free": fault_free}
+    return {"kind": "exchange", "producers": producers, "docs": docs, "order_seed": rng.randint(0, 2 ** 32), "fault_free": fault_free, "shared_consumers": shared}
 
 
 # ---------------------------------------------------------------------------------------
@@ -613,6 +624,8 @@ def exec_exchange(plan, tree, prop, log=None):
                 if want_c07 and level > 0:
                     monitors_c07(log, text, st, "hop %d %s" % (level, hop["ver"]))
                 node = cl.get("cons", hop["ver"], hop["hashseed"])
+                if node.calls >= 1:
+                    log.count("fault_long_lived_consumer_handles_another_document")
                 res = node.call("consume", {"text": text})
                 log.messages += 1
                 cell = "%s->%s" % (pver, hop["ver"])
@@ -624,6 +637,8 @@ def exec_exchange(plan, tree, prop, log=None):
                                     {"consumer": hop["ver"], "producer": pver, "why": res["why"], "level": level})
                     stt["alive"] = False
                     continue
+                if want_c07 and res.get("rt_ok") is False:
+                    log.violate("C07", "J4-normalized-document-does-not-reload-equal", norm_path(res.get("rt_where") or "?"), {"consumer": hop["ver"], "level": level})
                 cR, cRn = canon_of_text(res["R"]), canon_of_text(res["Rn"])
                 log.event("canon", di, level, hubutil.prng.derive(cR), hubutil.prng.derive(cRn))
                 if want_c15:
